@@ -15,5 +15,12 @@ try:
     import irparse, symex, models
 except Exception as e:
     print('engine import failed:', e); ok = False
+try:
+    import linarith_selftest
+    if linarith_selftest.main() != 0: ok = False
+except Exception as e:
+    print('linarith self-test failed:', e); ok = False
+for tool in ('cvc5', 'z3'):
+    if not shutil.which(tool): print('missing tool', tool); ok = False
 os.makedirs(os.path.join(root, 'evidence'), exist_ok=True); os.makedirs(os.path.join(root, 'replay'), exist_ok=True)
 print('setup ok' if ok else 'setup FAILED'); sys.exit(0 if ok else 1)
